@@ -257,7 +257,7 @@ def indent_count_ob(mp, log_dir, tier="quick"):
         names = [x[0] for x in td.variants[0][1]] if td else []
         if not all(n_ in names for n_ in ("indent_stack", "pending_dedents", "at_line_start", "tokens", "errors")):
             raise Inconclusive("Lexer no longer has the fields of the layout state")
-        N = 3 if tier == "quick" else 5
+        N = 3 if tier == "quick" else 7
         bad, queries, npaths, encoded = [], 0, 0, set()
         for depth in (2, 3):
             ex = mirx.make_executor(P, R, max_paths=2000000)
@@ -382,7 +382,7 @@ def scan_layout_ob(mp, log_dir, tier="quick"):
         names = [x[0] for x in td.variants[0][1]] if td else []
         if not all(n_ in names for n_ in ("indent_stack", "pending_dedents", "at_line_start", "bracket_depth", "tokens", "errors")):
             raise Inconclusive("Lexer no longer has the fields of the layout state")
-        N = 2 if tier == "quick" else 3
+        N = 2 if tier == "quick" else 5
         ex = mirx.make_executor(P, R, max_paths=2000000)
         ex.opaque_calls = mirx.slice_opaque
         ex.model_sequences = True
